@@ -459,6 +459,45 @@ ChainWellOrdered(T2, seq) ==
              \A s \in SlotsOfItem(T2, it[1], it[2]) \cap DOMAIN R2 :
                \A r \in R2[s] : ItemOf(r) \in inChain /\ ItemOf(r) # it => idx(ItemOf(r)) < idx(it)
 
+(****************************** system creation *****************************)
+(* System.after_init: breadth-first walk of "depends directly on me" from the system (an object already     *)
+(* pending is not queued twice, but may be computed several times), each object computing its attributes in *)
+(* declared order, then the system itself.  Journey durations are computed when the journey is created.     *)
+SetToSeq(X) == CHOOSE f \in [1..Cardinality(X) -> X] : \A a, b \in 1..Cardinality(X) : a # b => f[a] # f[b]
+RECURSIVE Flatten(_, _)
+Flatten(seqs, k) == IF k > Len(seqs) THEN <<>> ELSE seqs[k] \o Flatten(seqs, k + 1)
+DepSeq(T, o, jfn) ==
+    CASE o \in T.steps     -> T.jobsOf[o] \o SetToSeq(NetsOf(T, UPsOfStep(T, o)))
+      [] o \in T.ujs       -> IF UPsOfUJ(T, o) # {}
+                              THEN SetToSeq(UPsOfUJ(T, o)) \o (IF jfn THEN SetToSeq(NetsOf(T, UPsOfUJ(T, o))) ELSE <<>>)
+                              ELSE Flatten([k \in DOMAIN T.stepsOf[o] |-> T.jobsOf[T.stepsOf[o][k]]], 1)
+      [] o \in T.devices   -> SetToSeq(UPsOfDevice(T, o))
+      [] o \in T.countries -> SetToSeq(UPsOfCountry(T, o))
+      [] o \in T.ups       -> Flatten([k \in DOMAIN T.stepsOf[T.uj[o]] |-> T.jobsOf[T.stepsOf[T.uj[o]][k]]], 1)
+      [] o \in T.jobs      -> <<T.server[o]>> \o SetToSeq(NetsOf(T, UPsOfJob(T, o)))
+      [] o \in T.servers   -> <<T.storage[o]>>
+      [] o = SYS           -> T.sysups
+      [] OTHER             -> <<>>
+RECURSIVE QueueNew(_, _, _)
+QueueNew(pending, deps, k) ==
+    IF k > Len(deps) THEN pending
+    ELSE QueueNew(IF deps[k] \in SeqSet(pending) THEN pending ELSE Append(pending, deps[k]), deps, k + 1)
+RECURSIVE Bfs(_, _, _, _)
+Bfs(T, pending, acc, jfn) ==
+    IF pending = <<>> THEN acc
+    ELSE Bfs(T, QueueNew(Tail(pending), DepSeq(T, Head(pending), jfn), 1), Append(acc, Head(pending)), jfn)
+CreationOrder(T, jfn) == Append(Bfs(T, DepSeq(T, SYS, jfn), <<>>, jfn), SYS)
+
+(* items computed when the objects of `order` compute their calculated attributes one after the other *)
+ItemsOfOrder(T, order) == Flatten([k \in DOMAIN order |-> [n \in DOMAIN CalcAttrsOf(T, order[k]) |-> <<order[k], CalcAttrsOf(T, order[k])[n]>>]], 1)
+(* Objects the walk does not reach keep their initial empty values; for a network none of whose usage       *)
+(* patterns has a job and for a job that no usage pattern reaches, empty IS the right value.                 *)
+NeverComputed(T) == {s \in CalcSlots(T) : /\ s[1] \notin T.ujs
+                                          /\ ~(s[1] \in T.nets /\ NetPairs(T, s[1]) = {})
+                                          /\ ~(s[1] \in T.jobs /\ UPsOfJob(T, s[1]) = {})}
+StaleAfterOrder(T, order, staleBefore) == RunSeq(T, ReadsMap(T), staleBefore, ItemsOfOrder(T, order), 1)
+StaleAfterCreation(T, jfn) == StaleAfterOrder(T, CreationOrder(T, jfn), NeverComputed(T)) \cap Relevant(T)
+
 (***************************** applying changes ****************************)
 ApplyOne(T, c) ==
     IF c.kind = "input" THEN T
